@@ -391,6 +391,10 @@ def contains(I, container, item):
     """item in container."""
     from .interp import is_symbolic
 
+    if type(container).__name__ == "SMap":
+        h = container.has(I, item)
+        return h if isinstance(h, bool) else I.sbool(h)
+
     if isinstance(container, (tuple, list, set, frozenset)):
         if not is_symbolic(container) and not is_symbolic(item):
             try:
@@ -455,6 +459,12 @@ def opaque_contains(I, container, item):
 
 def get_item(I, obj, idx):
     from .interp import is_symbolic
+
+    if type(obj).__name__ == "SMap":
+        h = obj.has(I, idx)
+        if h is False or not I.path.decide(h):
+            I.raise_py(KeyError, idx)
+        return obj.value_at(I, obj.touched[-1])
 
     if isinstance(obj, SBytes) or (isinstance(obj, (bytes, bytearray)) and is_symbolic(idx)):
         b = B.to_sbytes(obj)
@@ -522,6 +532,10 @@ def opaque_getitem(I, obj, idx):
 
 def store_item(I, obj, idx, v):
     from .interp import is_symbolic
+
+    if type(obj).__name__ == "SMap":
+        obj.store(I, idx, v)
+        return
 
     if isinstance(obj, SBytes):
         if not obj.mutable:
